@@ -1117,14 +1117,31 @@ fn exec(w: &mut World, op: &Op, in_dtor_of: Option<&Node>, dry: bool) -> Option<
             pad_layout(w);
             // in place: if Clone panics the handle stays where it is while the call unwinds
             let p = w.roots[a as usize].last_mut()? as *mut Rc<Node>;
-            lib(|| unsafe {
-                Rc::make_mut(&mut *p);
-            });
-            if branch == "unique" {
+            let oldaddr = verif::rcbox_addr(unsafe { &*p });
+            // a destructor run by the release of the old handle may panic: the bookkeeping
+            // below is done first, then the panic continues
+            let r = catch_unwind(AssertUnwindSafe(|| {
+                lib(|| unsafe {
+                    Rc::make_mut(&mut *p);
+                })
+            }));
+            if branch == "unique" || clone_panics {
+                if let Err(e) = r {
+                    std::panic::resume_unwind(e);
+                }
                 return Some("unique".into());
             }
             let h = w.roots[a as usize].pop()?;
             let addr = verif::rcbox_addr(&h);
+            if addr == oldaddr {
+                // make_mut had to give the handle a new allocation and did not
+                push_ub(w, "makemut_stale", a);
+                w.roots[a as usize].push(h);
+                if let Err(e) = r {
+                    std::panic::resume_unwind(e);
+                }
+                return Some("stale".into());
+            }
             unsafe {
                 if let Some(sl) = track::slot_of(addr) {
                     sl.kind = 1;
@@ -1145,13 +1162,17 @@ fn exec(w: &mut World, op: &Op, in_dtor_of: Option<&Node>, dry: bool) -> Option<
                 }
                 w.objs[a as usize].gone = true;
             }
-            let script = w.objs[a as usize].script.clone();
+            // a moved value keeps its destructor script; a clone is a plain value
+            let script = if branch == "moved" { w.objs[a as usize].script.clone() } else { Script { op: "none".into(), x: 0, y: 0 } };
             w.objs.push(ObjInfo { made: true, addr, vptr, vinit: true, linit: true, gone: false, nd: 0, script });
             w.roots.push(vec![h]);
             w.wroots.push(Vec::new());
             w.raws.push(Vec::new());
             w.wraws.push(Vec::new());
             w.detached.push(None);
+            if let Err(e) = r {
+                std::panic::resume_unwind(e);
+            }
             Some(branch.into())
         }
         "IntoRaw" => {
@@ -1496,10 +1517,10 @@ fn drive_script(rng: &mut SmallRng, len: usize, nobj: u32, profile: &str, script
     unsafe {
         track::TRACK = true;
     }
-    let strict = profile != "stale" && profile != "elide" && profile != "consume";
+    let strict = profile != "stale" && profile != "elide" && profile != "consume" && profile != "cpanic";
     let strict_adopt = profile != "stale";
     let weak = profile != "core" && profile != "stale";
-    let consume = profile == "consume" || profile == "std";
+    let consume = profile == "consume" || profile == "std" || profile == "cpanic";
     let stdp = profile == "std";
     let mut scripted = 0u32;
     let cons: &[&str] = &["Misc", "TryUnwrap", "GetMut", "MakeMut", "MakeMutS", "MakeMutP", "IntoRaw", "FromRaw", "IncStrong", "DecStrong", "DropDetached", "TryUnwrap"];
@@ -1579,10 +1600,10 @@ fn drive_script(rng: &mut SmallRng, len: usize, nobj: u32, profile: &str, script
                 "dtor10" => &["CloneRoot", "DropRoot", "Downgrade", "WeakDrop", "UpgradeWeak", "UpgradeStored", "Adopt", "Unadopt", "Take"],
                 "dtor16" => &["CloneStored", "DropStored"],
                 "dtor05" => &["UpgradeWeak", "UpgradeStored"],
-                "panic" => &["Panic"],
+                "panic" | "cpanic" => &["Panic"],
                 _ => &[],
             };
-            if !menu.is_empty() && (profile != "panic" || scripted == 0) {
+            if !menu.is_empty() && ((profile != "panic" && profile != "cpanic") || scripted == 0) {
                 let m = menu[rng.gen_range(0..menu.len())];
                 let (x, y) = if m == "Panic" { (0, 0) } else { (rng.gen_range(1..=nobj), if m == "Adopt" || m == "Unadopt" { rng.gen_range(1..=nobj) } else { 0 }) };
                 d = Script { op: m.into(), x, y };
